@@ -3,7 +3,8 @@ import TongoModel.Tlb.BlockTlb
 import TongoModel.Tlb.SExp
 /-! Line handlers of the TL-B SPEC (property C04): what the schema prescribes for a value.
   tlb.spec <GoType> <stype> <val>  → ok <canonical table> | err
-  stype := (:nat|n) (:int|n) :bool (:bits|n) (:natleq|n) :unary (:varuint|n) (:N|:Name)   (Name: entry of Spec.senv)
+  stype := (:nat|n) (:int|n) :bool (:bits|n) (:natleq|n) :unary (:varuint|n) :any :cellref :msgaddress :anycast
+           (:maybe|s) (:either|s|s) (:ref|s) (:N|:Name)                  (Name: entry of Spec.senv)
   tlb.extmsg <workchain> <address hex32> <body table> <init val | ~> <import fee>
                                      → the cell block.tlb prescribes for the external-in message -/
 namespace Driver
@@ -12,6 +13,16 @@ open Tongo Tongo.Tlb Tongo.Tlb.Spec
 def stypeOf : Val → Option SType
   | .sym "bool" => some .bool
   | .sym "unary" => some .unary
+  | .sym "any" => some .any
+  | .sym "cellref" => some .cellRef
+  | .sym "msgaddress" => some .msgAddress
+  | .sym "anycast" => some .anycast
+  | .cons (.sym "maybe") (.cons t .nil) => (stypeOf t).map .maybe
+  | .cons (.sym "ref") (.cons t .nil) => (stypeOf t).map .ref
+  | .cons (.sym "either") (.cons l (.cons r .nil)) => do
+    let l ← stypeOf l
+    let r ← stypeOf r
+    pure (.either l r)
   | .cons (.sym "nat") (.cons (.int n) .nil) => some (.nat n.toNat)
   | .cons (.sym "int") (.cons (.int n) .nil) => some (.int n.toNat)
   | .cons (.sym "bits") (.cons (.int n) .nil) => some (.bits n.toNat)
